@@ -73,7 +73,11 @@ Next ==
 
 Spec == Init /\ [][Next]_vars
 
-View == <<L, G, nfail, atom, hit>>
+\* exhaustive configurations: the history length bounds the exploration, so it is part of the view - the
+\* set of explored states is then independent of the order in which TLC's workers reach them
+View == <<L, G, nfail, atom, hit, Len(hist)>>
+\* goal / lead searches (run with ONE worker = strict breadth-first order): shortest behaviours first
+ViewG == <<L, G, nfail, atom, hit>>
 
 \* ----- invariants (properties C01, C02, C03-aggregates on the model) -----
 InvConservation == Conservation(L, G)
